@@ -39,7 +39,7 @@ def finisher(rng):
 
 
 def base_scenario(rng, spec, nw, backend):
-    return {'program': spec, 'backend': backend, 'prefill': [], 'keep_going': rng.random() < 0.3, 'keep_failed': rng.random() < 0.2,
+    return {'program': spec, 'backend': backend, 'prefill': [], 'keep_going': rng.random() < 0.5, 'keep_failed': rng.random() < 0.5,
             'finisher': True,
             'phases': [{'workers': [{'nr_wait': rng.choice([2, 3]), 'unload': rng.random() < 0.3} for _ in range(nw)],
                         'policy': {'seed': rng.randrange(1 << 30), 'base': rng.choice(['random', 'rr']), 'flavour': 'systematic'}},
@@ -75,6 +75,7 @@ def systematic(ck, b, nbases, stride):
             sc['phases'][0]['policy']['flavour'] = 'stop-at:' + k
             res = b.run(sc, ORACLES)
             if res is not None:
+                ck.count('stop-flags:kg=%d,kf=%d,%s' % (sc['keep_going'], sc['keep_failed'], act))
                 delivered = any(e[0] == 'EInterrupt' for e in res.trace)
                 ck.count('stop-at:%s%s' % (k, '' if delivered else ' (schedule diverged: not delivered)'))
                 ck.count('mechanism:' + act)
@@ -134,9 +135,10 @@ def run(ck):
     systematic(ck, b, ck.n(14, 150), ck.n(2, 1))
     real_hooks(ck, b, ck.n(40, 600))
     random_stops(ck, b, ck.n(40, 1500))
-    if ck.tier == 'thorough':
-        from . import execproc
-        execproc.signal_runs(ck, ck.n(0, 40))
+    # real `jug execute` processes on a file store, real SIGTERM / SIGINT (the only tier that goes through ExecuteCommand.run,
+    # i.e. the SIGTERM handler registration and --no-check-environment)
+    from . import execproc
+    execproc.signal_runs(ck, ck.n(4, 40))
     for sc, res, _ in b.items[:400]:
         if len(ck.samples) < 3 and any(e[0] == 'EInterrupt' for e in res.trace):
             ck.sample({'program': sc['program'], 'backend': sc['backend'], 'events': [X.ev_show(e) for e in res.trace[:40]]})
